@@ -3859,11 +3859,14 @@ static void DecodeTBL(Word Index) {
                     CodeLen = 4 + AdrResult.Cnt;
                 }
             } else {
-                strcpy(ArgStr[3].str.p_str, p + 1);
-                *p = '\0';
-                if (DecodeAdr(&ArgStr[1], MModData, &AdrResult)) {
+                tStrComp Left, Right;
+
+                /* split in place: there is no third argument slot to borrow */
+
+                StrCompSplitRef(&Left, &Right, &ArgStr[1], p);
+                if (DecodeAdr(&Left, MModData, &AdrResult)) {
                     w2 = AdrResult.Mode;
-                    if (DecodeAdr(&ArgStr[3], MModData, &AdrResult)) {
+                    if (DecodeAdr(&Right, MModData, &AdrResult)) {
                         WAsmCode[0] = 0xf800 | w2;
                         WAsmCode[1]
                                 = 0x0000 | (OpSize << 6) | (Mode << 12) | AdrResult.Mode;
